@@ -611,16 +611,16 @@ pub fn main() {
     ck.assume(&format!("oracle: {} (fast-import, repack, pack-objects, multi-pack-index, cat-file --batch-all-objects); every object git prints is re-hashed by the harness", Git::version()));
     ck.assume("at pack level every pack gets a distinct data::File::id, as the shared cache is keyed by (pack id, offset)");
 
-    ck.sub("cached-reads", SubCfg::new(64, 1_600).max_len(6000).max_shrink(40), |t, c| {
+    ck.sub("cached-reads", SubCfg::new(96, 2_400).max_len(6000).max_shrink(40), |t, c| {
         let mut rng = Rng(t.u64() | 1);
         // ---- pack options
-        let depth = match t.weighted(&[1, 2, 3, 3]) {
+        let depth = match t.weighted(&[1, 2, 4, 8]) {
             0 => 0,
             1 => t.range(1, 2),
             2 => t.range(3, 10),
             _ => t.range(11, 50),
         };
-        let window = match t.weighted(&[1, 2, 5]) {
+        let window = match t.weighted(&[1, 3, 12]) {
             0 => 0,
             1 => t.range(1, 3),
             _ => t.range(4, 20),
@@ -893,6 +893,113 @@ pub fn main() {
         if timing {
             eprintln!("c08 timing: world {:?} pack-level {:?} store-level {:?} ({} objs, {} reqs)", t1 - t0, t2 - t1, t2.elapsed(), all_ids.len(), reqs.len());
         }
+    });
+
+    // ---------------------------------------------------------------------------------------------------------------
+    // The caches in isolation, under the invariant of the real read path: a key always carries the same value
+    // (an object at (pack, offset) / with a given id never changes). A cache may forget, but it may never lie.
+    ck.sub("cache-model", SubCfg::new(20_000, 600_000).max_len(500), |t, c| {
+        let which = t.below(N_PACK_CACHES + 3);
+        let value_of = |pack: u32, offset: u64, seed: u64| -> (Vec<u8>, Kind, usize) {
+            let mut r = Rng((seed ^ (u64::from(pack) << 40) ^ offset.wrapping_mul(0x9E37_79B9_7F4A_7C15)) | 1);
+            let len = match r.below(8) {
+                0 => r.below(9),
+                1 => 8 + r.below(60),
+                2..=4 => 50 + r.below(30),
+                5 => 900 + r.below(300),
+                6 => 10_000 + r.below(500),
+                _ => r.below(200),
+            };
+            let kind = [Kind::Blob, Kind::Tree, Kind::Commit, Kind::Tag][r.below(4)];
+            let csize = r.below(100_000);
+            (r.fill(len), kind, csize)
+        };
+        let seed = t.u64();
+        let nops = t.range(1, 120);
+        let mut out: Vec<u8> = Vec::new();
+        let mut hits = 0;
+        let mut puts: std::collections::BTreeSet<(u32, u64)> = Default::default();
+        let mut ops_desc: Vec<(bool, u32, u64)> = Vec::new();
+        if which < N_PACK_CACHES {
+            let mut cache = make_pack_cache(which);
+            for _ in 0..nops {
+                let is_put = t.chance(110);
+                let pack = t.below(3) as u32;
+                let offset = [12u64, 13, 200, 4096, 1 << 32, (1 << 32) + 12, u64::MAX][t.below(7)].wrapping_add(if t.chance(64) { t.below(4) as u64 } else { 0 });
+                let offset = if offset < 12 { 12 } else { offset };
+                ops_desc.push((is_put, pack, offset));
+                let (data, kind, csize) = value_of(pack, offset, seed);
+                if is_put {
+                    cache.put(pack, offset, &data, kind, csize);
+                    puts.insert((pack, offset));
+                } else {
+                    match t.below(4) {
+                        0 => out.clear(),
+                        1 => out = vec![0xAA; t.range(0, 2000)],
+                        2 => out = Vec::new(),
+                        _ => {}
+                    }
+                    match cache.get(pack, offset, &mut out) {
+                        Some((k, cs)) => {
+                            hits += 1;
+                            ensure_sig!(c, "cache-invents-entry", puts.contains(&(pack, offset)), "{}: get({pack}, {offset}) hits although that key was never put", pack_cache_name(which));
+                            ensure_sig!(
+                                c,
+                                "cache-returns-wrong-entry",
+                                k == kind && cs == csize && out == data,
+                                "{}: get({pack}, {offset}) = ({}, {cs}, {} bytes), the value put for this key is ({}, {csize}, {} bytes)",
+                                pack_cache_name(which),
+                                kind_name(k),
+                                out.len(),
+                                kind_name(kind),
+                                data.len()
+                            );
+                        }
+                        None => {}
+                    }
+                }
+            }
+            c.label("delta-cache");
+        } else {
+            let j = which - N_PACK_CACHES + 2;
+            let mut cache = make_obj_cache(j);
+            let mut put_ids: std::collections::BTreeSet<gix_hash::ObjectId> = Default::default();
+            for _ in 0..nops {
+                let is_put = t.chance(110);
+                let n = t.below(12) as u64;
+                ops_desc.push((is_put, 0, n));
+                let (data, kind, _) = value_of(7, n, seed);
+                let id = gix_object::compute_hash(gix_hash::Kind::Sha1, kind, &data);
+                if is_put {
+                    gix_pack::cache::Object::put(&mut cache, id, kind, &data);
+                    put_ids.insert(id);
+                } else {
+                    if t.bool() {
+                        out = vec![0x55; t.range(0, 500)];
+                    }
+                    if let Some(k) = gix_pack::cache::Object::get(&mut cache, &id, &mut out) {
+                        hits += 1;
+                        ensure_sig!(c, "cache-invents-entry", put_ids.contains(&id), "{}: get({id}) hits although that id was never put", obj_cache_name(j));
+                        ensure_sig!(
+                            c,
+                            "cache-returns-wrong-entry",
+                            k == kind && out == data,
+                            "{}: get({id}) = ({}, {} bytes), the object is ({}, {} bytes)",
+                            obj_cache_name(j),
+                            kind_name(k),
+                            out.len(),
+                            kind_name(kind),
+                            data.len()
+                        );
+                    }
+                }
+            }
+            c.label("object-cache");
+        }
+        c.label_if(hits > 0, "has-cache-hit");
+        c.nontrivial(hits > 0);
+        c.key(&(which, seed, &ops_desc));
+        c.sample_with(|| format!("cache #{which}, {nops} ops, {hits} hits: {:?}", &ops_desc[..ops_desc.len().min(10)]));
     });
 
     ck.finish();
